@@ -66,7 +66,11 @@ R4US = dict(type="x-verif-obj", spec_version="2.1", id=RID, created=T1, modified
 DST1 = camp("dst1 caf\u00e9", "2021-10-31T00:30:00.000Z")
 DST2 = camp("dst2 \u6f22", "2021-10-31T01:30:00.000Z")
 DST3 = camp("dst3", "2021-03-28T01:30:00.000Z")
-IDS = [A, SCO["id"], OLD20["id"], MD["id"], XID, RID, T5ID, I1ID, "campaign--" + U + "9", CU["id"], UPID, NCID, OLD20X["id"], U20ID]
+# content WITHOUT spec_version handed over with the version NAMED on the call (store.add(..., version="2.1")): stored as that version's object - by both stores, for every form
+IDVID = "identity--3f7f0c5f-5d54-4292-94ea-ec1e1952be2a"
+IDV_GIVEN = dict(type="identity", id=IDVID, created=T1, modified=T1, name="named", identity_class="individual")
+IDV = dict(IDV_GIVEN, spec_version="2.1")
+IDS = [IDVID, A, SCO["id"], OLD20["id"], MD["id"], XID, RID, T5ID, I1ID, "campaign--" + U + "9", CU["id"], UPID, NCID, OLD20X["id"], U20ID]
 TYPES = ["campaign", "ipv4-addr", "marking-definition", "x-unreg", "x-verif-obj", "tool", "identity", "malware", "course-of-action"]
 
 
@@ -134,13 +138,14 @@ def EVENTS():
         "old20x-dict": (lambda: copy.deepcopy(OLD20X), [OLD20X]), "u20-dict": (lambda: copy.deepcopy(U20), [U20]),
         "reg3us-dict": (lambda: copy.deepcopy(R3US), [R3US]), "reg4us-obj": (lambda: O(R4US), [R4US]),
         "dst1-obj": (lambda: O(DST1), [DST1]), "dst2-dict": (lambda: copy.deepcopy(DST2), [DST2]), "dst3-obj": (lambda: O(DST3), [DST3]),
+        "idv-list-named-2.1": (lambda: ("$version", "2.1", [copy.deepcopy(IDV_GIVEN)]), [IDV]), "idv-dict-named-2.1": (lambda: ("$version", "2.1", copy.deepcopy(IDV_GIVEN)), [IDV]),
         "tool5a": (lambda: O(TOOL5A), [TOOL5A]), "tool5b-dict": (lambda: copy.deepcopy(TOOL5B), [TOOL5B]), "ident1": (lambda: O(IDENT1), [IDENT1]),
     }
 
 
 QUICK_EVENTS = ["v1-obj", "v2-obj", "v3-obj", "v1-dict", "v2-dict-6digits", "v3-list", "v1v3-bundle-obj", "v2-bundle-dict", "v1-text", "v2x-obj",
-                "sco", "old20-dict", "md", "reg2-dict", "c0", "c1", "c2", "mix-list", "c3", "c4-text", "tool5a", "tool5b-dict", "v3us-obj", "cu", "coa-upper1", "v2-loadfile", "v1v3-loadfile", "c2-loadfile", "nc1", "nc2", "list-of-bundles", "list-of-bundle-dict", "old20x-dict", "u20-dict", "reg3us-dict", "reg4us-obj"]
-ALL_EVENTS = QUICK_EVENTS + ["reg1", "ident1", "coa-upper2-dict", "nc12-bundle"]
+                "sco", "old20-dict", "md", "reg2-dict", "c0", "c1", "c2", "mix-list", "c3", "c4-text", "tool5a", "tool5b-dict", "v3us-obj", "cu", "coa-upper1", "v2-loadfile", "v1v3-loadfile", "c2-loadfile", "nc1", "nc2", "list-of-bundles", "list-of-bundle-dict", "old20x-dict", "u20-dict", "reg3us-dict", "reg4us-obj", "idv-list-named-2.1"]
+ALL_EVENTS = QUICK_EVENTS + ["reg1", "ident1", "coa-upper2-dict", "nc12-bundle", "idv-dict-named-2.1"]
 
 
 def instant_of(d):
@@ -281,7 +286,7 @@ def observe(store, part, what):
 
 def feature_of(id_):
     return {A: "versioned-sdo", SCO["id"]: "unversioned-sco", OLD20["id"]: "v20-sdo", MD["id"]: "marking-definition", XID: "unregistered-dict",
-            RID: "registered-custom", OLD20X["id"]: "v20-sdo-with-custom-property", U20ID: "unregistered-dict-without-spec_version", T5ID: "uuid5-id", I1ID: "uuid1-id", CU["id"]: "unversioned-unregistered-dict", UPID: "upper-case-hex-uuid7-id", NCID: "dict-without-created"}.get(id_, "absent-id")
+            RID: "registered-custom", OLD20X["id"]: "v20-sdo-with-custom-property", U20ID: "unregistered-dict-without-spec_version", T5ID: "uuid5-id", I1ID: "uuid1-id", CU["id"]: "unversioned-unregistered-dict", UPID: "upper-case-hex-uuid7-id", IDVID: "version-named-on-the-call", NCID: "dict-without-created"}.get(id_, "absent-id")
 
 
 def compare(sname, obs, model, part, case, conflicted):
@@ -414,6 +419,8 @@ def _run_history(case, part):
                         json.dump(item[1], fh)
                     mem.load_from_file(lp)
                     os.unlink(lp)
+                elif isinstance(item, tuple) and item[0] == "$version":
+                    mem.add(item[2], version=item[1])
                 else:
                     mem.add(item)
                 part.outcome("mem-add-ok")
@@ -429,7 +436,10 @@ def _run_history(case, part):
             part.transitions += 1
             try:
                 fitem = factory()
-                fs.add(fitem[1] if isinstance(fitem, tuple) and fitem[0] == "$loadfile" else fitem)
+                if isinstance(fitem, tuple) and fitem[0] == "$version":
+                    fs.add(fitem[2], version=fitem[1])
+                else:
+                    fs.add(fitem[1] if isinstance(fitem, tuple) and fitem[0] == "$loadfile" else fitem)
                 part.outcome("fs-add-ok")
             except DataSourceError:
                 # loud refusal to overwrite: legitimate only if some atom's (id, instant) was already stored
